@@ -91,6 +91,7 @@ def main():
                 except Exception as e:
                     r = Result(o.name, 'inconclusive', o.engine, 'engine exception: %s' % traceback.format_exc()[-1500:], o.bounds)
         finally:
+            common.release_thread_scratch()
             with cv:
                 state['used'] -= w
                 cv.notify_all()
